@@ -20,22 +20,26 @@ def _p(title, kani=None, verus=None, level="model_checking", level_text="", tech
 PROPS = {
     "C02": _p(
         "Slice indexing and splitting functions agree with std slice indexing",
-        kani=["c02"], verus=["c02"], level="model_checking",
-        level_text="Kani: every getter/clamping/_mut/chunk/array-conversion function compared with the real std call by pointer and length, "
+        kani=["c02"], verus=["c02"], level="proof",
+        level_text="Verus: slice_from/up_to/range, get, get_from/up_to/range, split_at proved against subrange specs for every slice length and every usize index, "
+                   "with the safety preconditions of ptr::offset/from_raw_parts as obligations. Not yet under Verus (Kani only, bounded in slice length): _mut twins, as_chunks/as_rchunks, try_into_array. Kani: every getter/clamping/_mut/chunk/array-conversion function compared with the real std call by pointer and length, "
                    "loop-free in the indices (all of usize), slice length <= 8, element types u16 and ()",
         technique="Kani harnesses vs real std (complete in indices, bounded in slice length); Verus contracts on the expanded functions when present",
     ),
     "C03": _p(
         "String slicing agrees with std str indexing, including char-boundary rules",
-        kani=["c03"], verus=["c03"], level="model_checking",
-        level_text="Kani: getters == str::get, boundary predicate == str::is_char_boundary, clamping variants return std's sub-string or the clamped one; "
+        kani=["c03"], verus=["c03"], level="proof",
+        level_text="Verus: boundary predicates == str::is_char_boundary definition (bit-vector lemma for the `as i8 >= -0x40` trick), get_up_to/get_from/get_range == str::get, "
+                   "str_up_to/str_from/str_range/split_at return std's sub-string or the clamped one and panic exactly when an in-range index is inside a character "
+                   "(two-contract split), from_utf8_unchecked's precondition discharged by the proved cut lemma; for every string and index. Kani: getters == str::get, boundary predicate == str::is_char_boundary, clamping variants return std's sub-string or the clamped one; "
                    "must-panic / must-not-panic pair for indices inside a character; all valid UTF-8 strings <= 6 bytes, all usize indices",
         technique="Kani harnesses vs real std with panic whitelisting; Verus two-contract split (f__ok / f__panics) when present",
     ),
     "C04": _p(
         "Pattern search finds the same first / last occurrence as std",
-        kani=["c04"], verus=["c04"], level="model_checking",
-        level_text="Kani: forward/reverse search, contains, skip/keep, split_once against a first/last-occurrence reference, all byte values, hay <= 5, needle <= 3; "
+        kani=["c04"], verus=["c04"], level="proof",
+        level_text="Verus: __bytes_find/__bytes_rfind/__bytes_contain/__bytes_find_skip/_keep/__bytes_rfind_skip/_keep proved to return the first/last occurrence (or absence) "
+                   "for every haystack and needle, with termination; string-level wrappers and split_once are glue checked by Kani (bounded). Kani: forward/reverse search, contains, skip/keep, split_once against a first/last-occurrence reference, all byte values, hay <= 5, needle <= 3; "
                    "four pattern kinds",
         technique="Kani bounded harnesses against first/last-occurrence reference (tied to str::find/rfind); Verus loop invariants when present",
         assumptions=["naive first/last-occurrence reference is str::find/rfind (SPEC harness c04_spec_vs_std, thorough tier)",
@@ -43,8 +47,9 @@ PROPS = {
     ),
     "C05": _p(
         "Prefix/suffix tests, stripping and trimming agree with std",
-        kani=["c05"], verus=["c05"], level="model_checking",
-        level_text="Kani: starts/ends/strip vs prefix reference, whitespace trims vs <[u8]>::trim_ascii*, trim_*_matches vs maximal-whole-repetitions reference; all byte values, input <= 6-7 bytes",
+        kani=["c05"], verus=["c05"], level="proof",
+        level_text="Verus: __bytes_strip_prefix/suffix, start_with/end_with, bytes_trim/_start/_end (== maximal ASCII-whitespace runs, lemma-characterised), "
+                   "__bytes_trim_start_matches/_end_matches/_matches (== maximal whole repetitions) proved for every input; string-level wrappers are glue checked by Kani (bounded). Kani: starts/ends/strip vs prefix reference, whitespace trims vs <[u8]>::trim_ascii*, trim_*_matches vs maximal-whole-repetitions reference; all byte values, input <= 6-7 bytes",
         technique="Kani bounded harnesses vs real std trim_ascii* and reference; Verus loop invariants when present",
         assumptions=["two-sided trim_matches with an overlapping needle may remove the run from either end first; both orders are accepted"],
     ),
